@@ -542,6 +542,13 @@ async def load_scripts(
                     # also skip apps/APP.py if apps/APP/__init__.py is present
                     continue
 
+                if not check_config and path == "apps" and rel_import_path is not None and rel_path.count("/") == 2:
+                    #
+                    # apps/APP/__init__.py found by the glob for an app's other files: the app isn't
+                    # configured (any more).  Its configuration must differ from whatever a loaded
+                    # context has, also from None (an app configured with an empty entry).
+                    #
+                    app_config = False
                 if check_config:
                     app_name = fq_mod_name
                     i = app_name.find(".")
